@@ -33,7 +33,8 @@ def hygiene():
 def print_axioms(module, theorems):
     """returns {theorem: (ok, axioms or error text)}."""
     os.makedirs(os.path.join(build.BUILD, "tmp"), exist_ok=True)
-    src = "import %s\n" % module + "".join("#print axioms %s\n" % t for t in theorems)
+    mods = module if isinstance(module, list) else [module]
+    src = "".join("import %s\n" % m for m in mods) + "".join("#print axioms %s\n" % t for t in theorems)
     fd, path = tempfile.mkstemp(suffix=".lean", dir=os.path.join(build.BUILD, "tmp"))
     with os.fdopen(fd, "w") as f: f.write(src)
     try:
